@@ -9,13 +9,27 @@ bytes, agreement of the two entry points, interleave/deinterleave inverse on 98 
 rejection of every stream that contains a constellation point the encoder cannot emit from the state
 reached at that position.  Reachability is computed here, from the tables only (`Ref`), never by
 calling the stage functions of the implementation.
+
+Histories (hardening, result aliasing / shared mutable state): every argument and every result of
+the two entry points and the ten stage functions is an *object the caller keeps* (`run_history`).
+All kept objects are read again after every step and at the end; returned mutable objects are edited
+in place (flip / put, extend, del, clear, slice assignment, reverse) and the same and other inputs
+are submitted again; argument objects are reused across calls and edited between calls; every
+accepted container type of an argument (big/little/frozen bitarray, list, tuple, bytes/bytearray of
+0/1, array typecodes, bytes) must give the same answer; `is`-identity between a result and any
+object held so far is chased with an edit.  Every answer is compared with a table-only reference
+(`Ref.apply`, no history) and, through `drv_c10`, with the Lean store model (`Model/TrellisStore.lean`).
 """
+import importlib
 import json
 import os
 import subprocess
+import sys
+import tempfile
+import time
 from array import array
 
-from bitarray import bitarray
+from bitarray import bitarray, frozenbitarray
 
 from common import BIN, bits_str, hex_str, impl_error
 
@@ -157,9 +171,119 @@ def tribits_to_block(ts) -> str:
     return "".join(format(t & 7, "03b") for t in ts[:48])
 
 
+def _ref_chain(self, block: str):
+    """every intermediate value of encode(block) from the tables alone (keys: B O TS P DD DI S);
+    None if the tables do not allow it"""
+    try:
+        ts = [int(block[i : i + 3], 2) for i in range(0, 144, 3)] + [0]
+        st, pts = 0, []
+        for x in ts:
+            pts.append(self.TR[st * 8 + x])
+            st = x
+        dd = []
+        for q in pts:
+            dd.extend(self.CPinv[q])
+        di = [dd[m] for m in self.M]
+        out = []
+        for x in di:
+            out.extend(self.Dinv[x])
+        return {"B": block, "O": bitarray(block).tobytes().hex(), "TS": ts, "P": pts, "DD": dd, "DI": di,
+                "S": "".join(str(b) for b in out)}
+    except (KeyError, IndexError, ValueError):
+        return None
+
+
+def _ref_apply(self, fn: str, kind: str, val):
+    """history-free answer of `fn` on an argument of kind `kind` with content `val` (bits: str, numbers:
+    list, octets: bytes), as a canonical object string; "ERR" = must raise; None = the reference is silent
+    (left to the model and to the first answer in the same history)"""
+    try:
+        if fn == "encode":
+            if kind == "l":
+                return None  # outside the property (theorem little_endian_argument): model only
+            bits = val if kind == "b" else "".join(format(x, "08b") for x in val)
+            if len(bits) < 144:
+                return "ERR"
+            ch = self.chain(bits[:144])
+            return None if ch is None else "b:" + ch["S"]
+        if fn in ("decode", "decode_bytes"):
+            if len(val) != 196:
+                return "ERR"
+            pts = self.points_of_stream(val)
+            if pts is None:
+                return None
+            if self.first_unreachable(pts) is not None:
+                return "ERR"
+            path = self.path(pts)
+            if path is None:
+                return None
+            block = tribits_to_block(path)
+            return "b:" + block if fn == "decode" else "o:" + bitarray(block).tobytes().hex()
+        if fn == "bits_to_dibits":
+            if len(val) % 2:
+                return "ERR"
+            return "i:" + cints([self.D[(int(val[i]), int(val[i + 1]))] for i in range(0, len(val), 2)])
+        if fn == "bits_to_tribits":
+            if kind == "l":
+                return None
+            return "n:" + cints([int(val[i : i + 3], 2) for i in range(0, len(val), 3)] + [0])
+        if fn == "dibits_to_bits":
+            if any(x not in self.Dinv for x in val):
+                return "ERR"
+            return "b:" + ("".join(str(b) for x in val for b in self.Dinv[x]) or "-")
+        if fn == "deinterleave":
+            if len(val) != 98 or len(self.M) != 98:
+                return None
+            out = [None] * 98
+            for i, m in enumerate(self.M):
+                out[m] = val[i]
+            return None if None in out else "i:" + cints(out)
+        if fn == "interleave":
+            if len(val) != 98 or len(self.M) != 98:
+                return None
+            return "i:" + cints([val[m] for m in self.M])
+        if fn == "dibits_to_points":
+            if len(val) % 2:
+                return "ERR"
+            if any((val[i], val[i + 1]) not in self.CP for i in range(0, len(val), 2)):
+                return "ERR"
+            return "n:" + cints([self.CP[(val[i], val[i + 1])] for i in range(0, len(val), 2)])
+        if fn == "points_to_dibits":
+            if any(q not in self.CPinv for q in val):
+                return "ERR"
+            return "i:" + cints([x for q in val for x in self.CPinv[q]])
+        if fn == "points_to_tribits":
+            if len(val) < 49:
+                return "ERR"
+            if self.first_unreachable(val[:49]) is not None:
+                return "ERR"
+            path = self.path(val[:49])
+            return None if path is None else "n:" + cints(path)
+        if fn == "tribits_to_points":
+            if any(not 0 <= x < 8 for x in val):
+                return None
+            st, pts = 0, []
+            for x in val:
+                pts.append(self.TR[st * 8 + x])
+                st = x
+            return "n:" + cints(pts)
+        if fn == "tribits_to_bits":
+            if len(val) != 49:
+                return "ERR"
+            return "b:" + "".join(format(x & 7, "03b") for x in val[:48])
+    except (KeyError, IndexError, ValueError, TypeError):
+        return None
+    return None
+
+
+Ref.chain = _ref_chain
+Ref.apply = _ref_apply
+
+
 # ---- the property on the real code ---------------------------------------------------------------
-def oracle_block(block: str):
-    """block: 144 chars of 0/1.  Returns (failures, observables) on the real code."""
+def oracle_block(block: str, keep=None):
+    """block: 144 chars of 0/1.  Returns (failures, observables) on the real code.  `keep`: a list that
+    receives (block, stream object, its content, decoded object, its content) — the caller keeps what it got"""
     t = T()
     fails = []
     octets = bitarray(block).tobytes()
@@ -174,6 +298,8 @@ def oracle_block(block: str):
     obs["decode"] = cbits(dec)
     if is_err(dec) or bits_str(dec) != block:
         fails.append(("round-trip", "decode(encode(block)) is not the block", block, cbits(dec)))
+    if keep is not None:
+        keep.append((block, enc, bits_str(enc), dec, cbits(dec)))
     encb = call(t.encode, octets)
     obs["encode_bytes"] = cbits(encb)
     if is_err(encb) or bits_str(encb) != bits_str(enc):
@@ -306,8 +432,1001 @@ def _ba_from_bytes(b: bytes) -> bitarray:
     return x
 
 
+# ---- histories: arguments and results as objects the caller keeps ---------------------------------
+SIGNED, UNSIGNED = "bhilq", "BHILQ"
+TRELLIS_MODULE = "okdmr.dmrlib.etsi.fec.trellis"
+FAIL_CAP = 3
+
+# (kind, form) of an argument object; kinds: b = big-endian bitarray or any other 0/1 sequence, l = little-endian
+# bitarray, i = signed numbers (dibits), n = unsigned numbers (points / tribits), o = bytes
+BITARRAY_FORMS = [("b", "ba"), ("b", "fz"), ("l", "le")]
+SEQ01_FORMS = BITARRAY_FORMS + [("b", "lst"), ("b", "tup"), ("b", "b01"), ("b", "ba01")]
+INT_FORMS = [("i", f) for f in ("ab", "ah", "aq", "lst", "tup")]
+NAT_FORMS = [("n", f) for f in ("aB", "aH", "aQ", "lst", "tup")]
+MUTABLE_FORMS = {"ba", "le", "lst", "ba01", "ab", "ah", "aq", "aB", "aH", "aQ"}
+# function -> accepted argument forms ("where accepted": what the code as it exists takes without raising on valid content)
+FUNCS = {
+    "encode": BITARRAY_FORMS + [("o", "by")],
+    "decode": SEQ01_FORMS,
+    "decode_bytes": SEQ01_FORMS,
+    "bits_to_dibits": SEQ01_FORMS,
+    "bits_to_tribits": BITARRAY_FORMS,
+    "dibits_to_bits": INT_FORMS,
+    "deinterleave": INT_FORMS,
+    "interleave": INT_FORMS,
+    "dibits_to_points": INT_FORMS,
+    "points_to_dibits": NAT_FORMS,
+    "points_to_tribits": NAT_FORMS,
+    "tribits_to_points": NAT_FORMS,
+    "tribits_to_bits": NAT_FORMS,
+}
+# which value of a block's chain (Ref.chain) is a valid argument of the function
+VALID_ARG = {
+    "encode": "B", "decode": "S", "decode_bytes": "S", "bits_to_dibits": "S", "bits_to_tribits": "B",
+    "dibits_to_bits": "DI", "deinterleave": "DI", "interleave": "DD", "dibits_to_points": "DD",
+    "points_to_dibits": "P", "points_to_tribits": "P", "tribits_to_points": "TS", "tribits_to_bits": "TS",
+}
+CHAIN_KIND = {"B": "b", "S": "b", "O": "o", "DI": "i", "DD": "i", "P": "n", "TS": "n"}
+# kind token of the right-hand side of an extend / slice assignment on an object of the given kind
+RHS_KIND = {"b": "b", "l": "b", "i": "i", "n": "n", "o": None}
+
+
+def fresh_module():
+    """re-execute the trellis module: class-level state (tables, and whatever else a change may keep there) starts
+    from scratch, as in a new process.  Every history starts like this, so a recorded history replays on its own."""
+    m = sys.modules.get(TRELLIS_MODULE)
+    if m is None:
+        importlib.import_module(TRELLIS_MODULE)
+    else:
+        importlib.reload(m)
+
+
+def endian_of(x) -> str:
+    e = x.endian
+    return e() if callable(e) else e
+
+
+def enc_val(kind: str, val) -> str:
+    """content -> the token used in steps / model lines"""
+    if kind in ("b", "l"):
+        return val if val else "-"
+    if kind == "o":
+        return val.hex() if val else "-"
+    return ",".join(str(int(v)) for v in val) if len(val) else "-"
+
+
+def dec_val(kind: str, tok: str):
+    if kind in ("b", "l"):
+        return "" if tok == "-" else tok
+    if kind == "o":
+        return b"" if tok == "-" else bytes.fromhex(tok)
+    return [] if tok == "-" else [int(v) for v in tok.split(",")]
+
+
+def mk_obj(kind: str, form: str, val):
+    if kind in ("b", "l"):
+        if form == "ba":
+            return bitarray(val)
+        if form == "le":
+            return bitarray(val, endian="little")
+        if form == "fz":
+            return frozenbitarray(val)
+        xs = [int(c) for c in val]
+        return {"lst": list, "tup": tuple, "b01": bytes, "ba01": bytearray}[form](xs)
+    if kind == "o":
+        return bytes(val)
+    if form in ("lst", "tup"):
+        return list(val) if form == "lst" else tuple(val)
+    return array(form[1], val)
+
+
+def canon_obj(x, kind=None) -> str:
+    """'<kind>:<content>' of an object; `kind` is what the creator knows about a list / tuple / 0-1 octets"""
+    if is_err(x):
+        return x
+    if isinstance(x, bitarray):
+        return ("l:" if endian_of(x) == "little" else "b:") + (x.to01() or "-")
+    if isinstance(x, array):
+        return ("i:" if x.typecode in SIGNED else "n:") + cints(x)
+    if kind == "b" and isinstance(x, (list, tuple, bytes, bytearray)):
+        return "b:" + ("".join(str(int(v)) for v in x) or "-")
+    if kind in ("i", "n") and isinstance(x, (list, tuple)):
+        return f"{kind}:" + cints(x)
+    if isinstance(x, bytes):
+        return "o:" + (x.hex() or "-")
+    return "ERR unexpected-type-" + type(x).__name__
+
+
+def form_of_result(x):
+    """(kind, form, mutable) under which a returned object can be passed on"""
+    if isinstance(x, frozenbitarray):
+        return ("b", "fz", False) if endian_of(x) == "big" else (None, None, False)
+    if isinstance(x, bitarray):
+        return ("b", "ba", True) if endian_of(x) == "big" else ("l", "le", True)
+    if isinstance(x, array):
+        if x.typecode in SIGNED:
+            return ("i", "a" + x.typecode, True)
+        if x.typecode in UNSIGNED:
+            return ("n", "a" + x.typecode, True)
+    if isinstance(x, bytes):
+        return ("o", "by", False)
+    return (None, None, False)
+
+
+def split_canon(c: str):
+    """'<kind>:<token>' -> (kind, content)"""
+    k, tok = c.split(":", 1)
+    return k, dec_val(k, tok)
+
+
+def edit_value(kind: str, val, ed):
+    """content after an in-place edit (pure); None if the edit does not apply"""
+    op = ed[0]
+    seq = list(val) if kind in ("b", "l") else list(val)
+    if op == "flip":
+        i = ed[1]
+        if kind not in ("b", "l") or not 0 <= i < len(seq):
+            return None
+        seq[i] = "1" if seq[i] == "0" else "0"
+    elif op == "put":
+        i, v = ed[1], ed[2]
+        if kind not in ("i", "n") or not 0 <= i < len(seq) or (kind == "n" and v < 0):
+            return None
+        seq[i] = v
+    elif op == "extend":
+        if RHS_KIND[kind] != ed[1]:
+            return None
+        seq = seq + list(dec_val(kind, ed[2]))
+    elif op == "del":
+        lo, hi = ed[1], ed[2]
+        seq = seq[:lo] + seq[max(lo, hi):]
+    elif op == "clear":
+        seq = []
+    elif op == "assign":
+        if RHS_KIND[kind] != ed[1]:
+            return None
+        seq = list(dec_val(kind, ed[2]))
+    elif op == "reverse":
+        seq = seq[::-1]
+    else:
+        return None
+    return "".join(seq) if kind in ("b", "l") else seq
+
+
+def edit_object(x, kind: str, ed):
+    """the same edit on the real object, in place (bitarray / array / list / bytearray are the trusted substrate)"""
+    op = ed[0]
+    if op == "flip":
+        x[ed[1]] = 0 if x[ed[1]] else 1
+        return
+    if op == "put":
+        x[ed[1]] = ed[2]
+        return
+    if op in ("extend", "assign"):
+        v = dec_val(kind, ed[2])
+        if isinstance(x, bitarray):
+            rhs = bitarray(v, endian=endian_of(x))
+        elif isinstance(x, array):
+            rhs = array(x.typecode, v)
+        elif isinstance(x, bytearray):
+            rhs = bytes(int(c) for c in v)
+        else:
+            rhs = [int(c) for c in v]
+        if op == "extend":
+            x.extend(rhs)
+        else:
+            x[:] = rhs
+        return
+    if op == "del":
+        del x[ed[1] : max(ed[1], ed[2])]
+        return
+    if op == "clear":
+        del x[:]
+        return
+    if op == "reverse":
+        x.reverse()
+        return
+    raise ValueError(op)
+
+
+def impl_call(t, fn: str, obj):
+    if fn == "decode_bytes":
+        return call(t.decode, obj, True)
+    return call(getattr(t, fn), obj)
+
+
+def step_line(st) -> str:
+    if st[0] == "new":
+        return f"hs.new {st[1]} {st[3]}"
+    if st[0] == "call":
+        return f"hs.call {st[1]} {st[2]}"
+    return "hs.edit " + " ".join(str(x) for x in st[1:])
+
+
+def step_text(st) -> str:
+    return " ".join(str(x) for x in st)
+
+
+def tables_snapshot(t):
+    names = ("TRELLIS34_INTERLEAVE_MATRIX", "TRELLIS34_ENCODER_STATE_TRANSITION", "TRELLIS34_DIBITS",
+             "TRELLIS34_DIBITS_REVERSE", "TRELLIS34_CONSTELLATION_POINTS", "TRELLIS34_CONSTELLATION_POINTS_REVERSE")
+    out = []
+    for n in names:
+        v = getattr(t, n, None)
+        out.append(repr(list(v.items()) if isinstance(v, dict) else list(v) if v is not None else None))
+    return out
+
+
+class HistResult:
+    def __init__(self):
+        self.lines = []    # (model line, implementation output)
+        self.bad = []      # dict(kind, at, owner, expected, actual, fn, what)
+        self.aliases = []  # (step index, new handle, old handle)
+        self.held = []     # dict(obj, kind, form, mutable, exp, owner, role)
+        self.calls = []    # (fn, argument content) per call
+        self.steps = []
+
+
+class Session:
+    """
+    A caller's history on the real code, from a fresh module state, keeping every argument and every result.
+      ["new", kind, form, content]     the caller builds an argument object          (allocates the next handle)
+      ["call", fn, handle]             Trellis34.fn(held[handle])                    (allocates the next handle)
+      ["edit", handle, op, args…]      the caller edits held[handle] in place
+    After every step the kept objects are read again (all of them; for a long history the last `window` ones and
+    every 64th step all; at the end all): an object must hold what its creator put there / what the call returned,
+    plus the caller's own edits, and nothing else.  Each call's answer is compared with the history-free
+    reference and with the first answer to the same (function, argument content) in this history.
+    """
+
+    def __init__(self, ref: Ref, window=None):
+        fresh_module()
+        self.ref, self.window = ref, window
+        self.t = T()
+        self.tables0 = tables_snapshot(self.t)
+        self.res = HistResult()
+        self.held = self.res.held
+        self.steps = self.res.steps
+        self.by_id, self.first, self.reported = {}, {}, set()
+
+    def _bad(self, kind, at, owner, expected, actual, fn, what):
+        self.res.bad.append({"kind": kind, "at": at, "owner": owner, "expected": expected, "actual": actual, "fn": fn, "what": what})
+
+    def _reread(self, at, lo=0):
+        held, steps = self.held, self.steps
+        for r in range(lo, len(held)):
+            h = held[r]
+            if h["obj"] is None or r in self.reported:
+                continue
+            cur = canon_obj(h["obj"], h["kind"])
+            if cur != h["exp"]:
+                self.reported.add(r)
+                role = "argument object built in" if h["role"] == "arg" else "object returned by"
+                fn = h.get("fn") or (steps[at][1] if steps[at][0] == "call" else None)
+                self._bad("held-object-changed", at, h["owner"], h["exp"], cur, fn,
+                          f"the {role} step {h['owner']} ({step_text(steps[h['owner']])}) changed its content during step {at} "
+                          f"({step_text(steps[at])}) although the caller did not touch it")
+
+    def _after(self):
+        idx = len(self.steps) - 1
+        if self.window is None or idx % 64 == 63:
+            self._reread(idx)
+        else:
+            self._reread(idx, max(0, len(self.held) - self.window))
+
+    def step(self, st):
+        return {"new": self.new, "call": self.call, "edit": self.edit}[st[0]](*st[1:])
+
+    def new(self, kind, form, tok) -> int:
+        st = ["new", kind, form, tok]
+        self.steps.append(st)
+        obj = mk_obj(kind, form, dec_val(kind, tok))
+        self.held.append({"obj": obj, "kind": kind, "form": form, "mutable": form in MUTABLE_FORMS,
+                          "exp": canon_obj(obj, kind), "owner": len(self.steps) - 1, "role": "arg"})
+        if form in MUTABLE_FORMS:
+            self.by_id[id(obj)] = len(self.held) - 1
+        self.res.lines.append((step_line(st), str(len(self.held) - 1)))
+        self._after()
+        return len(self.held) - 1
+
+    def call(self, fn, r) -> int:
+        st = ["call", fn, r]
+        self.steps.append(st)
+        idx = len(self.steps) - 1
+        held = self.held
+        a = held[r]
+        ref_n = len(held)
+        if a["obj"] is None or a["kind"] is None or (a["kind"], a["form"]) not in FUNCS[fn]:
+            # not a call the harness makes (only reachable while shrinking): keep the handles aligned, say nothing
+            held.append({"obj": None, "kind": None, "form": None, "mutable": False, "exp": "ERR not-called", "owner": idx, "role": "res", "fn": fn})
+            return ref_n
+        akind, aval = split_canon(a["exp"])
+        out = impl_call(self.t, fn, a["obj"])
+        self.res.calls.append((fn, a["exp"]))
+        c = canon_obj(out)
+        self.res.lines.append((step_line(st), f"{ref_n} {c}"))
+        want = self.ref.apply(fn, akind, aval)
+        wrong = False
+        if want == "ERR":
+            if not is_err(c):
+                wrong = True
+                self._bad("wrong-result-in-history", idx, idx, "rejected (exception)", c, fn,
+                          f"step {idx} ({step_text(st)}) of a history is answered although the argument (content {a['exp']}) must be refused")
+        elif want is not None and c != want:
+            wrong = True
+            self._bad("wrong-result-in-history", idx, idx, want, c, fn,
+                      f"step {idx} ({step_text(st)}) of a history returns a wrong result (argument content {a['exp']})")
+        key = (fn, a["exp"])
+        if key not in self.first:
+            self.first[key] = (idx, c)
+        elif self.first[key][1] != c and not wrong:
+            f0 = self.first[key]
+            self._bad("result-depends-on-history", idx, idx, f0[1], c, fn,
+                      f"step {idx} ({step_text(st)}) answers differently from step {f0[0]} ({step_text(self.steps[f0[0]])}) "
+                      f"for the same argument content {a['exp']}")
+        if is_err(c):
+            held.append({"obj": None, "kind": None, "form": None, "mutable": False, "exp": c, "owner": idx, "role": "res", "fn": fn})
+        else:
+            kind, form, mut = form_of_result(out)
+            if mut and id(out) in self.by_id and held[self.by_id[id(out)]]["obj"] is out:
+                self.res.aliases.append((idx, ref_n, self.by_id[id(out)]))
+            held.append({"obj": out, "kind": kind, "form": form, "mutable": mut, "exp": c, "owner": idx, "role": "res", "fn": fn})
+            if mut:
+                self.by_id.setdefault(id(out), ref_n)
+        self._after()
+        return ref_n
+
+    def edit(self, r, *ed) -> bool:
+        st = ["edit", r] + list(ed)
+        self.steps.append(st)
+        h = self.held[r]
+        ok = False
+        if h["obj"] is not None and h["mutable"]:
+            k, v = split_canon(h["exp"])
+            nv = edit_value(k, v, ed)
+            if nv is not None:
+                try:
+                    edit_object(h["obj"], k, ed)
+                    ok = True
+                except BaseException:  # noqa  (an object that refuses the edit is not a violation; nothing was changed)
+                    ok = False
+                if ok:
+                    h["exp"] = f"{k}:{enc_val(k, nv)}"
+                    self.reported.discard(r)
+                    self.res.lines.append((step_line(st), "ok"))
+        self._after()
+        return ok
+
+    def finish(self) -> HistResult:
+        if self.steps:
+            self._reread(len(self.steps) - 1)
+        if tables_snapshot(T()) != self.tables0:
+            n = len(self.steps) - 1
+            self._bad("tables-changed", n, n, "the six tables as loaded", "changed", None,
+                      "a table of Trellis34 was modified by the calls of the history")
+        for r, h in enumerate(self.held):
+            if h["exp"] != "ERR not-called":
+                self.res.lines.append((f"hs.read {r}", canon_obj(h["obj"], h["kind"]) if h["obj"] is not None else h["exp"]))
+        return self.res
+
+
+def run_history(ref: Ref, steps, window=None) -> HistResult:
+    s = Session(ref, window)
+    for st in steps:
+        s.step(st)
+    return s.finish()
+
+
+def alias_followups(steps, res: HistResult):
+    """identity between a result and an object held before is no violation yet; the edit that makes it one"""
+    out = []
+    for at, new, old in res.aliases[:3]:
+        h = res.held[new]
+        k, v = split_canon(h["exp"])
+        if k in ("b", "l"):
+            poke = ["edit", new, "flip", 0] if len(v) else ["edit", new, "extend", "b", "1"]
+        else:
+            poke = ["edit", new, "put", 0, (int(v[0]) + 1) % 100] if len(v) else ["edit", new, "extend", k, "1"]
+        out.append(steps[: at + 1] + [poke, list(steps[at])])
+    return out
+
+
+# -- shrinking
+def allocates(st) -> bool:
+    return st[0] in ("new", "call")
+
+
+def refs_of(st):
+    return [st[2]] if st[0] == "call" else [st[1]] if st[0] == "edit" else []
+
+
+def with_ref(st, f):
+    st = list(st)
+    if st[0] == "call":
+        st[2] = f(st[2])
+    elif st[0] == "edit":
+        st[1] = f(st[1])
+    return st
+
+
+def sub_history(steps, keep):
+    """the steps with indices in `keep` as a history of its own (handles renumbered); None if a kept step refers
+    to an object whose allocating step is dropped"""
+    keep = sorted(set(keep))
+    handle_of_step, n = {}, 0
+    for i, st in enumerate(steps):
+        if allocates(st):
+            handle_of_step[i] = n
+            n += 1
+    step_of_handle = {h: i for i, h in handle_of_step.items()}
+    remap, k = {}, 0
+    for i in keep:
+        if allocates(steps[i]):
+            remap[handle_of_step[i]] = k
+            k += 1
+    out = []
+    for i in keep:
+        st = steps[i]
+        for r in refs_of(st):
+            if r not in remap or step_of_handle[r] > i:
+                return None
+        out.append(with_ref(st, lambda r: remap[r]))
+    return out
+
+
+def closure(steps, idxs):
+    """idxs plus the allocating steps of every object they refer to"""
+    alloc = [i for i, st in enumerate(steps) if allocates(st)]
+    todo, out = list(idxs), set()
+    while todo:
+        i = todo.pop()
+        if i in out or not 0 <= i < len(steps):
+            continue
+        out.add(i)
+        for r in refs_of(steps[i]):
+            if r < len(alloc):
+                todo.append(alloc[r])
+    return out
+
+
+def history_fails(ref, steps, kinds=None, window=None) -> bool:
+    res = run_history(ref, steps, window=window if len(steps) > 200 else None)
+    return any(kinds is None or b["kind"] in kinds for b in res.bad)
+
+
+def shrink(ref, steps, b, max_runs=220, window=None, seconds=6.0):
+    """a short history that still fails in the same way, from a fresh module state (bounded effort)"""
+    kinds = {b["kind"]}
+    at, owner = b["at"], b["owner"]
+    runs = [0]
+    t_end = time.time() + seconds
+
+    def fails(c):
+        if c is None or time.time() > t_end:
+            return False
+        runs[0] += 1
+        return history_fails(ref, c, kinds, window)
+
+    cur = None
+    base = closure(steps, {at, owner})
+    cands = [base]
+    for back in (1, 2, 4, 8, 16, 32, 64):
+        cands.append(closure(steps, base | set(range(max(0, at - back), at))))
+        cands.append(closure(steps, base | set(range(max(0, at - back), at)) | set(range(owner, min(at, owner + back + 1)))))
+    for c in cands:
+        sub = sub_history(steps, c)
+        if fails(sub):
+            cur = sub
+            break
+    if cur is None:
+        cur = [list(s) for s in steps[: at + 1]]
+        if len(cur) == len(steps) or not fails(cur):
+            return [list(s) for s in steps]
+    if len(cur) > 150:
+        # a long prefix: drop halves / quarters / … while it still fails (bounded), no step-by-step pass
+        size = len(cur) // 2
+        while size >= 8 and runs[0] < 40:
+            lo = 0
+            while lo < len(cur) - 1 and runs[0] < 40:
+                keep = [i for i in range(len(cur)) if not lo <= i < min(lo + size, len(cur) - 1)]
+                sub = sub_history(cur, closure(cur, keep)) if keep else None
+                if sub is not None and len(sub) < len(cur) and fails(sub):
+                    cur = sub
+                else:
+                    lo += size
+            size //= 2
+        if len(cur) > 150:
+            return cur
+    # greedy removal, last step first
+    j = len(cur) - 1
+    while j >= 0 and runs[0] < max_runs:
+        sub = sub_history(cur, [i for i in range(len(cur)) if i != j])
+        if sub is not None and len(sub) and fails(sub):
+            cur = sub
+        j -= 1
+    return cur
+
+
+def confirm_fresh(steps) -> bool:
+    """does the history fail when replayed by a new interpreter (what a reviewer will run)?"""
+    here = os.path.dirname(os.path.abspath(__file__))
+    with tempfile.NamedTemporaryFile("w", suffix=".json", delete=False) as f:
+        json.dump({"type": "failing-input", "failure": {"kind": "history", "input": {"kind": "history", "steps": steps}}}, f)
+        name = f.name
+    try:
+        p = subprocess.run([sys.executable, os.path.join(os.path.dirname(here), "check.py"), "C10", "--replay", name],
+                           capture_output=True, text=True, timeout=120)
+        return p.returncode == 1
+    except Exception:  # noqa
+        return True
+    finally:
+        os.unlink(name)
+
+
+class HistoryProbe:
+    """runs histories, reports what fails (shrunk, confirmed by a new interpreter) and ships the lines of whole
+    histories to the store model"""
+
+    def __init__(self, ctx, ref):
+        self.ctx, self.ref = ctx, ref
+        self.n_fail = {}
+        self.confirms = 0
+        self.buf = {}
+        self.n_buf = 0
+        self.reported = 0
+        self.shrink_until = None  # wall-clock end of the shrinking allowance, set at the first failure
+
+    def session(self, window=None) -> Session:
+        return Session(self.ref, window)
+
+    def run(self, component, steps, window=None):
+        s = self.session(window)
+        for st in steps:
+            s.step(st)
+        return self.done(component, s)
+
+    def enough(self) -> bool:
+        """the search stops once a dozen failing histories have been reported"""
+        return self.reported >= 12
+
+    def done(self, component, session: Session, chase=True):
+        ctx = self.ctx
+        res = session.finish()
+        steps = [list(x) for x in res.steps]
+        ctx.count(f"hist:{component}:histories")
+        ctx.count(f"hist:{component}:steps", len(steps))
+        ctx.count(f"hist:{component}:calls", len(res.calls))
+        ctx.count(f"hist:{component}:kept-objects", len(res.held))
+        ctx.count(f"hist:{component}:edits", sum(1 for x in steps if x[0] == "edit"))
+        for fn, content in res.calls:
+            ctx.case(("hist-call", fn, content))
+            ctx.count(f"hist-fn:{fn}")
+        if res.aliases:
+            ctx.count(f"hist:{component}:result-is-an-object-held-before", len(res.aliases))
+        self.report(component, steps, res, session.window)
+        if not ctx.search_only and ctx.driver_ok:
+            self.buf.setdefault(f"history.{component}", []).extend([("hs.reset", "ok")] + res.lines)
+            self.n_buf += len(res.lines) + 1
+            if self.n_buf >= 20000:
+                self.flush()
+        if chase and res.aliases and not res.bad:
+            for s2 in alias_followups(steps, res):
+                s = self.session()
+                for st in s2:
+                    s.step(st)
+                self.done(component + ".alias-chase", s, chase=False)
+        return res
+
+    def flush(self):
+        for comp, pairs in self.buf.items():
+            if pairs:
+                self.ctx.correspond(comp, pairs)
+        self.buf, self.n_buf = {}, 0
+
+    def report(self, component, steps, res, window=None):
+        ctx = self.ctx
+        seen = set()
+        for b in res.bad:
+            key = (b["kind"], b["fn"])
+            if key in seen:
+                continue
+            seen.add(key)
+            self.n_fail[key] = self.n_fail.get(key, 0) + 1
+            if self.n_fail[key] > FAIL_CAP:
+                ctx.count(f"suppressed-failure:{b['kind']}")
+                continue
+            if self.shrink_until is None:
+                self.shrink_until = time.time() + 45.0
+            self.reported += 1
+            left = self.shrink_until - time.time()
+            short = shrink(self.ref, steps, b, window=window, seconds=min(6.0, left)) if left > 0.5 else steps
+            if short != steps and self.confirms < 3:
+                self.confirms += 1
+                if not confirm_fresh(short):
+                    ctx.count("hist:shrunk-history-not-confirmed-by-a-new-interpreter")
+                    short = steps
+            r2 = run_history(self.ref, short, window=window if len(short) > 200 else None)
+            same = [x for x in r2.bad if x["kind"] == b["kind"]]
+            bb = same[0] if same else b
+            if not same:
+                short = steps
+            ctx.fail(b["kind"], {"kind": "history", "steps": short, "generator": component, "function": bb["fn"]},
+                     bb["what"], expected=bb["expected"], actual=bb["actual"])
+
+
+# ---- history generators -----------------------------------------------------------------------------
+INT_VALUES = [3, 1, -1, -3, 3, 1, -1, -3, 0, 2, -2, 5, -128, 127]
+NAT_VALUES = list(range(16)) + [16, 17, 64, 255]
+
+
+def relatives(x: str, rng):
+    """blocks that a sloppy key / hash / comparison may confuse with the 144-bit block x"""
+    def flip(s, i):
+        return s[:i] + ("1" if s[i] == "0" else "0") + s[i + 1 :]
+
+    def inv(s):
+        return "".join("1" if c == "0" else "0" for c in s)
+
+    i = rng.randrange(1, 143)
+    return [
+        flip(x, 143), flip(x, 0), flip(x, i),                       # one bit apart: last, first, somewhere
+        x[:136] + inv(x[136:]), inv(x[:8]) + x[8:],                 # last / first octet differs
+        x[:128] + format(rng.getrandbits(16), "016b"),              # same first 16 octets
+        format(rng.getrandbits(16), "016b") + x[16:],               # same last 16 octets
+        x[:72] + format(rng.getrandbits(72), "072b"), format(rng.getrandbits(72), "072b") + x[72:],
+        inv(x),
+        "".join(x[k : k + 8][::-1] for k in range(0, 144, 8)),      # the same buffer read in the other bit order
+        "".join(x[k : k + 3][::-1] for k in range(0, 144, 3)),      # every tribit reversed
+        x[72:] + x[:72], x[1:] + x[:1], x[8:] + x[:8], x[::-1],     # halves swapped, rotated by a bit / an octet, reversed
+    ]
+
+
+def arg_relatives(kind: str, tok: str, rng):
+    """argument contents one element away from `tok` (first, last, somewhere): mostly invalid for the function"""
+    v = dec_val(kind, tok)
+    n = len(v)
+    out = []
+    if not n or kind == "o":
+        return out
+    for i in (0, n - 1, rng.randrange(n)):
+        if kind in ("b", "l"):
+            w = v[:i] + ("1" if v[i] == "0" else "0") + v[i + 1 :]
+        else:
+            w = list(v)
+            w[i] = rng.choice([y for y in (INT_VALUES[:4] if kind == "i" else NAT_VALUES[:8]) if y != v[i]])
+        out.append(enc_val(kind, w))
+    return out
+
+
+def history_pool(ref: Ref, rng, n_random: int):
+    """chains (Ref.chain) of the blocks the histories use: special values, captured packets, random blocks and
+    the relatives of one of them"""
+    blocks = ["0" * 144, "1" * 144] + [bits_str(_ba_from_bytes(bytes.fromhex(h))) for h in CORPUS_HEX]
+    blocks += [rand_block(rng) for _ in range(n_random)]
+    blocks += relatives(blocks[-1], rng)
+    out, seen = [], set()
+    for b in blocks:
+        ch = ref.chain(b)
+        if ch is not None and b not in seen:
+            seen.add(b)
+            out.append(ch)
+    return out
+
+
+def arg_token(ch, fn: str, kind: str) -> str:
+    key = "O" if kind == "o" else VALID_ARG[fn]
+    v = ch[key]
+    return v if isinstance(v, str) else enc_val(CHAIN_KIND[key], v)
+
+
+def random_edit(rng, kind: str, content, other_tok=None):
+    """an in-place edit of an object of the given kind with the given current content"""
+    n = len(content)
+    bitsy = kind in ("b", "l")
+    vals = None if bitsy else (INT_VALUES if kind == "i" else NAT_VALUES)
+    ops = ["point", "point", "extend", "del-prefix", "del-suffix", "del-middle", "clear", "assign", "reverse"]
+    op = rng.choice(ops)
+    if op == "point" and n:
+        i = rng.choice([0, n - 1, rng.randrange(n)])
+        return ["flip", i] if bitsy else ["put", i, rng.choice(vals)]
+    if op == "extend" or (op == "point" and not n):
+        k = rng.choice([1, 2, 4, 8])
+        tok = format(rng.getrandbits(k), f"0{k}b") if bitsy else ",".join(str(rng.choice(vals)) for _ in range(k))
+        return ["extend", RHS_KIND[kind], tok]
+    if op == "del-prefix":
+        return ["del", 0, rng.choice([1, 2, 3, 8, 16])]
+    if op == "del-suffix":
+        return ["del", max(0, n - rng.choice([1, 2, 3, 8, 16])), n]
+    if op == "del-middle":
+        lo = rng.randrange(n + 1)
+        return ["del", lo, min(n, lo + rng.choice([1, 2, 6]))]
+    if op == "clear":
+        return ["clear"]
+    if op == "assign":
+        if other_tok is not None:
+            return ["assign", RHS_KIND[kind], other_tok]
+        if not n:
+            tok = "-"
+        elif bitsy:
+            tok = format(rng.getrandbits(n), f"0{n}b")
+        else:
+            tok = ",".join(str(rng.choice(vals[:8])) for _ in range(n))  # the first eight are the valid values
+        return ["assign", RHS_KIND[kind], tok]
+    return ["reverse"]
+
+
+EDIT_VARIANTS = ["point", "extend", "del", "clear", "assign", "reverse"]
+
+
+def variant_edit(rng, variant: str, kind: str, content, same_len_tok):
+    n = len(content)
+    bitsy = kind in ("b", "l")
+    if variant == "point":
+        if not n:
+            return ["extend", RHS_KIND[kind], "1"]
+        i = rng.randrange(n)
+        if bitsy:
+            return ["flip", i]
+        pool = [v for v in (INT_VALUES[:4] if kind == "i" else NAT_VALUES[:8]) if v != content[i]]
+        return ["put", i, rng.choice(pool)]
+    if variant == "extend":
+        return ["extend", RHS_KIND[kind], "0000" if bitsy else ("1,1" if kind == "i" else "0,0")]
+    if variant == "del":
+        return ["del", 0, min(n, 16) if bitsy else min(n, 2)]
+    if variant == "clear":
+        return ["clear"]
+    if variant == "assign":
+        return ["assign", RHS_KIND[kind], same_len_tok]
+    return ["reverse"]
+
+
+def scripted_histories(ctx, probe: HistoryProbe, chains, reps: int):
+    rng = ctx.rng
+    fns = list(FUNCS)
+    for rep in range(reps):
+        if probe.enough():
+            return
+        chs = chains[:2] + rng.sample(chains[2:], min(3, len(chains) - 2)) if rep == 0 else rng.sample(chains, min(5, len(chains)))
+        for fn in fns:
+            forms = FUNCS[fn]
+            # -- hold: keep every result while other inputs are submitted, then the first inputs again
+            for kind, form in forms:
+                s = probe.session()
+                args = []
+                for ch in chs:
+                    a = s.new(kind, form, arg_token(ch, fn, kind))
+                    args.append(a)
+                    s.call(fn, a)
+                s.call(fn, args[0])
+                s.call(fn, s.new(kind, form, arg_token(chs[0], fn, kind)))
+                s.call(fn, args[-1])
+                probe.done("hold", s)
+            # -- edit a returned object in place, then the same input (same object, new object) and another input
+            for vi, variant in enumerate(EDIT_VARIANTS):
+                kind, form = forms[(vi + rep) % len(forms)]
+                kind2, form2 = forms[(vi + rep + 1) % len(forms)]
+                x, y, z = chs[vi % len(chs)], chs[(vi + 1) % len(chs)], chs[(vi + 2) % len(chs)]
+                s = probe.session()
+                a = s.new(kind, form, arg_token(x, fn, kind))
+                results = [s.call(fn, a), s.call(fn, a)]
+                results.append(s.call(fn, s.new(kind2, form2, arg_token(x, fn, kind2))))
+                for r in results:
+                    h = s.held[r]
+                    if h["obj"] is None or not h["mutable"]:
+                        continue
+                    k, v = split_canon(h["exp"])
+                    # a content of the same length to assign: what the call returns for another input
+                    yk = ref_result_token(probe.ref, fn, kind, y)
+                    s.edit(r, *variant_edit(rng, variant, k, v, yk if yk is not None else enc_val(k, v[::-1])))
+                    s.call(fn, a)
+                    s.call(fn, s.new(kind, form, arg_token(x, fn, kind)))
+                    s.call(fn, s.new(kind, form, arg_token(z, fn, kind)))
+                probe.done("edit-result", s)
+            # -- one argument object over several calls, edited by the caller between the calls
+            for kind, form in forms:
+                x, y = chs[rep % len(chs)], chs[(rep + 1) % len(chs)]
+                s = probe.session()
+                a = s.new(kind, form, arg_token(x, fn, kind))
+                s.call(fn, a)
+                s.call(fn, a)
+                for other in FUNCS:
+                    if other != fn and (kind, form) in FUNCS[other] and VALID_ARG[other] == VALID_ARG[fn] and kind != "o":
+                        s.call(other, a)
+                if form in MUTABLE_FORMS:
+                    k = s.held[a]["exp"].split(":", 1)[0]
+                    s.edit(a, "assign", RHS_KIND[k], arg_token(y, fn, kind))
+                    s.call(fn, a)
+                    _, v = split_canon(s.held[a]["exp"])
+                    s.edit(a, *variant_edit(rng, "point", k, v, None))
+                    s.call(fn, a)
+                    s.edit(a, *variant_edit(rng, "del", k, v, None))
+                    s.call(fn, a)
+                    s.edit(a, "clear")
+                    s.call(fn, a)
+                    s.edit(a, "assign", RHS_KIND[k], arg_token(x, fn, kind))
+                    s.call(fn, a)
+                else:
+                    s.call(fn, s.new(kind, form, arg_token(y, fn, kind)))
+                    s.call(fn, a)
+                probe.done("reuse-argument", s)
+            # -- inputs a sloppy key would confuse: relatives of one block (and of its argument content), all held
+            kind, form = forms[rep % len(forms)]
+            x = chs[(rep + 2) % len(chs)]
+            s = probe.session()
+            toks = [arg_token(x, fn, kind)]
+            for rb in relatives(x["B"], rng):
+                rc = probe.ref.chain(rb)
+                if rc is not None:
+                    toks.append(arg_token(rc, fn, kind))
+            toks += arg_relatives(kind, toks[0], rng)
+            hs = [s.new(kind, form, tok) for tok in toks]
+            for a in hs:
+                s.call(fn, a)
+            for a in reversed(hs):
+                s.call(fn, a)
+            probe.done("relatives", s)
+            # -- every accepted container type of the same content
+            s = probe.session()
+            for ch in chs[:2]:
+                for kind, form in forms:
+                    s.call(fn, s.new(kind, form, arg_token(ch, fn, kind)))
+            probe.done("forms", s)
+        # -- the stage chain by reference: every intermediate object is the next stage's argument and stays held
+        for ch in chs[:3]:
+            s = probe.session()
+            b = s.new("b", "ba", ch["B"])
+            ts = s.call("bits_to_tribits", b)
+            pts = s.call("tribits_to_points", ts)
+            dd = s.call("points_to_dibits", pts)
+            di = s.call("interleave", dd)
+            st = s.call("dibits_to_bits", di)
+            s.call("encode", b)
+            s.call("decode", st)
+            di2 = s.call("bits_to_dibits", st)
+            dd2 = s.call("deinterleave", di2)
+            p2 = s.call("dibits_to_points", dd2)
+            t2 = s.call("points_to_tribits", p2)
+            s.call("tribits_to_bits", t2)
+            s.call("decode_bytes", st)
+            # the caller damages intermediate objects and feeds them on; everything upstream stays as it was
+            for h, nxt in ((di2, "deinterleave"), (p2, "points_to_tribits"), (t2, "tribits_to_bits"), (st, "decode"), (dd, "interleave"), (ts, "tribits_to_points")):
+                hh = s.held[h]
+                if hh["obj"] is None or not hh["mutable"]:
+                    continue
+                k, v = split_canon(hh["exp"])
+                s.edit(h, *random_edit(rng, k, v))
+                s.call(nxt, h)
+            s.call("encode", b)
+            s.call("decode", s.call("encode", s.new("o", "by", ch["O"])))
+            probe.done("chain", s)
+
+
+def ref_result_token(ref: Ref, fn, kind, ch):
+    """content token of what `fn` returns for the chain's valid argument (None if the reference is silent)"""
+    key = "O" if kind == "o" else VALID_ARG[fn]
+    v = ch[key]
+    val = bytes.fromhex(v) if kind == "o" else v
+    w = ref.apply(fn, kind, val)
+    if w is None or w == "ERR" or w.startswith("o:"):
+        return None
+    return w.split(":", 1)[1]
+
+
+def random_history(ctx, probe: HistoryProbe, chains, n_steps: int, window=None, component="random"):
+    rng = ctx.rng
+    s = probe.session(window)
+    fns = list(FUNCS)
+    pool = rng.sample(chains, min(len(chains), rng.choice([2, 3, 6])))
+    calls = []  # (fn, handle)
+    while len(s.steps) < n_steps:
+        u = rng.random()
+        live = [r for r in range(max(0, len(s.held) - 40), len(s.held)) if s.held[r]["obj"] is not None and s.held[r]["kind"] is not None]
+        if u < 0.38 or not live:
+            fn = rng.choice(fns)
+            kind, form = rng.choice(FUNCS[fn])
+            tok = arg_token(rng.choice(pool), fn, kind)
+            if rng.random() < 0.12 and kind != "o":
+                # damaged content: wrong length / a foreign value (the error paths; reference mostly silent, model decides)
+                v = dec_val(kind, tok)
+                ed = random_edit(rng, kind, v)
+                nv = edit_value(kind, v, ed)
+                if nv is not None:
+                    tok = enc_val(kind, nv)
+            a = s.new(kind, form, tok)
+            calls.append((fn, a))
+            s.call(fn, a)
+        elif u < 0.62:
+            r = rng.choice(live[-12:]) if rng.random() < 0.7 else rng.choice(live)
+            h = s.held[r]
+            ok = [fn for fn in fns if (h["kind"], h["form"]) in FUNCS[fn]]
+            if ok:
+                fn = rng.choice(ok)
+                calls.append((fn, r))
+                s.call(fn, r)
+        elif u < 0.92:
+            mut = [r for r in live if s.held[r]["mutable"]]
+            res = [r for r in mut if s.held[r]["role"] == "res"]
+            cand = res if res and rng.random() < 0.65 else mut
+            if cand:
+                r = rng.choice(cand[-10:]) if rng.random() < 0.7 else rng.choice(cand)
+                k, v = split_canon(s.held[r]["exp"])
+                s.edit(r, *random_edit(rng, k, v))
+                if rng.random() < 0.5 and calls:
+                    fn, a = rng.choice(calls[-6:])
+                    s.call(fn, a)
+        elif calls:
+            fn, a = rng.choice(calls)
+            s.call(fn, a)
+    return probe.done(component, s)
+
+
+def block_sequence_steps(blocks):
+    """the calls of the block stage as a history: per block encode(bits), decode, encode(bytes), decode as_bytes"""
+    steps = []
+    for i, b in enumerate(blocks):
+        h = 6 * i
+        steps += [["new", "b", "ba", b], ["call", "encode", h], ["call", "decode", h + 1],
+                  ["new", "o", "by", bitarray(b).tobytes().hex()], ["call", "encode", h + 3], ["call", "decode_bytes", h + 1]]
+    return steps
+
+
+def reread_block_stage(ctx, kept):
+    """scale variant of 'hold every returned object': all streams and blocks handed out during the block stage
+    (thousands, one module state) must still read what they read when they were returned"""
+    ctx.count("block:kept-objects-read-again", 2 * len(kept))
+    first = None
+    for i, (block, enc, es, dec, ds) in enumerate(kept):
+        if bits_str(enc) != es or (not is_err(dec) and cbits(dec) != ds):
+            first = i
+            break
+    if first is None:
+        return
+    ctx.count("block:kept-object-changed")
+    ref = Ref()
+    probe = HistoryProbe(ctx, ref)
+    seq = [k[0] for k in kept[first : first + 4096]]
+    for n in (2, 8, 64, 512, 4096):
+        steps = block_sequence_steps(seq[:n])
+        res = run_history(ref, steps, window=8)
+        if res.bad:
+            probe.report("block-sequence", steps, res, 8)
+            return
+        if n >= len(seq):
+            break
+    block, enc, es, dec, ds = kept[first]
+    ctx.fail("held-object-changed", {"kind": "history", "steps": block_sequence_steps(seq), "generator": "block-sequence", "function": None},
+             f"an object returned for block #{first} of the block stage changed its content while later blocks were processed "
+             "(not reproduced by the same calls from a new module state)", expected=es + " / " + ds, actual=bits_str(enc) + " / " + cbits(dec))
+
+
+def history_stage(ctx, ref: Ref):
+    rng = ctx.rng
+    probe = HistoryProbe(ctx, ref)
+    chains = history_pool(ref, rng, 4)
+    if len(chains) < 3:
+        ctx.count("hist:skipped-tables-unusable")
+        return
+    # a fixed share of the budget: the sizes depend on the tier only (a boosted search at most doubles them)
+    k = 2 if ctx.boost > 1 else 1
+    thorough = ctx.thorough()
+    scripted_histories(ctx, probe, chains, (6 if thorough else 1) * k)
+    for _ in range((1500 if thorough else 40) * k):
+        if probe.enough():
+            break
+        random_history(ctx, probe, chains, rng.choice([12, 25, 50, 80]))
+    # scale: long histories in one module state (the kept objects are re-read in a sliding window and every 64 steps)
+    for _ in range((3 if thorough else 1) * k):
+        if probe.enough():
+            break
+        random_history(ctx, probe, history_pool(ref, rng, 40), 10000 if thorough else 2500, window=8, component="random-long")
+    if probe.enough():
+        ctx.count("hist:stopped-after-a-dozen-failing-histories")
+    probe.flush()
+
+
 # ---- run -----------------------------------------------------------------------------------------
 def run(ctx):
+    fresh_module()  # a second pass (boosted search) starts from the module state of a new process as well
     t = T()
     ref = Ref()
     rng = ctx.rng
@@ -317,8 +1436,19 @@ def run(ctx):
         "flush, Eulerian walks through all 64), then seeded random 144-bit blocks; each through encode/decode "
         "by bits and by bytes.  received streams: encoder outputs with one dibit replaced (all 98 positions x 3 "
         "alternatives on several blocks) or one constellation point replaced (every (state, point) combination "
-        "incl. the flush position), plus random 196-bit strings.  distinct = distinct (kind, input); all-zero "
-        "block is the only trivial case"
+        "incl. the flush position), plus random 196-bit strings.  histories (each from a re-executed module): "
+        "for each of the 13 callables (encode, decode, decode as_bytes, ten stage functions) and each accepted "
+        "container type of the argument (big/little/frozen bitarray, list, tuple, bytes/bytearray of 0/1, five "
+        "array typecodes, bytes) — hold: results of several inputs kept, then the first inputs again; edit-result: "
+        "a returned object edited in place (flip/put, extend, del, clear, slice assignment, reverse), then the same "
+        "input by the same and a new object and another input; reuse-argument: one argument object over several "
+        "calls and functions, edited between the calls; relatives: a block and 16 blocks / 3 argument contents a "
+        "sloppy key would confuse with it; forms: all container types of one content; chain: every stage's result "
+        "object passed on as the next stage's argument, intermediate objects damaged; random and long random "
+        "histories mixing all of these.  Every kept object (arguments too) is read again after every step, every "
+        "answer is compared with a table-only reference and with the first answer for that content; a result that "
+        "`is` an object held before is chased with an edit.  distinct = distinct (kind, input) resp. (function, "
+        "argument content); all-zero block is the only trivial case"
     )
     ctx.trusted_base += [
         "Lean 4.33 kernel",
@@ -326,6 +1456,10 @@ def run(ctx):
         "hand-written model Model/Trellis.lean of the ten stage functions and encode/decode, tied to the code by this run's correspondence",
         "the harness's table-only reference (Ref) that decides which received points are unreachable",
         "bitarray / array are trusted as the substrate of the implementation",
+        "hand-written store model Model/TrellisStore.lean (a call appends one new object, touches nothing else), tied to the code "
+        "by the history correspondence (every kept object is read back through hs.read)",
+        "importlib.reload of okdmr.dmrlib.etsi.fec.trellis stands for 'a new process' at the start of every history (failing histories "
+        "are confirmed by a new interpreter before they are reported in shrunk form)",
     ]
     ctx.assumptions += [
         "bit blocks are passed as big-endian bitarrays (bitarray's default, what the library's own callers pass); "
@@ -358,8 +1492,9 @@ def run(ctx):
     sample_at = {"corpus": 1, "transition-forced": 5, "random": 3}
     seen_tag = {}
     encoded = []  # (block, stream) kept for the corruption stage
+    kept = []  # every stream / block object the two entry points returned in this stage, read again at its end
     for tag, block in blocks:
-        fails, obs = oracle_block(block)
+        fails, obs = oracle_block(block, kept if len(kept) < 50000 else None)
         k = seen_tag[tag] = seen_tag.get(tag, 0) + 1
         smp = None
         if sample_at.get(tag) == k:
@@ -379,6 +1514,8 @@ def run(ctx):
         if not is_err(enc) and len(enc) == 196 and (tag != "random" or len(encoded) < 4000 or rng.random() < 0.05):
             encoded.append((block, enc))
     corr.flush()
+    reread_block_stage(ctx, kept)
+    del kept
 
     # ---------------- received streams with one dibit replaced
     def do_stream(kind, s, origin):
@@ -478,6 +1615,9 @@ def run(ctx):
     if not ctx.search_only and ctx.driver_ok:
         stage_correspondence(ctx, corr, encoded)
     corr.flush()
+
+    # ---------------- histories: arguments and results as kept objects (last: each history re-executes the module)
+    history_stage(ctx, Ref())
     ctx.exhaustive = False
 
 
@@ -538,6 +1678,11 @@ def stage_correspondence(ctx, corr, encoded):
             stage("encode(bytes,length)", "tr.encode_bytes", hex_str(b), t.encode, b, cbits)
         s = rbits(144)
         stage("encode(little-endian)", "tr.encode_le", s, t.encode, bitarray(s, endian="little"), cbits)
+        # objects with len() and slices that are neither bytes nor bitarray: length assertion, then ba2int's TypeError
+        for k in [0, 18, 143, 144, 196]:
+            xs = [rng.randrange(2) for _ in range(k)]
+            for name, obj in (("bytearray", bytearray(xs)), ("memoryview", memoryview(bytes(xs))), ("list", xs), ("tuple", tuple(xs)), ("str", "".join(map(str, xs)))):
+                stage(f"encode({name})", "tr.encode_foreign", str(k), t.encode, obj, cbits)
         for k in [0, 1, 194, 195, 197, 198, 392]:
             s = rbits(k)
             stage("decode(length)", "tr.decode", arg_bits(s), t.decode, bitarray(s), cbits)
@@ -649,6 +1794,17 @@ def replay(obj):
         print("first point the encoder cannot emit from the state reached there: position", info["first_unreachable"])
         print("implementation decode:", out)
         print("model decode:", model_says([f"tr.decode {s}"])[0])
+    elif inp.get("kind") == "history":
+        steps = inp["steps"]
+        res = run_history(Ref(), steps)
+        ms = model_says(["hs.reset"] + [l for l, _ in res.lines])[1:]
+        print("history (a new module state; handles are allocated by 'new' and 'call' in order, from 0):")
+        for i, st in enumerate(steps):
+            print(f"  step {i}: {step_text(st)}")
+        print("implementation / model, line by line:")
+        for (line, out), m in zip(res.lines, ms):
+            print(f"  {line[:60]}{'…' if len(line) > 60 else ''}\n      implementation: {out}\n      model:          {m}")
+        fails = [(b["kind"], b["what"], b["expected"], b["actual"]) for b in res.bad]
     elif inp.get("kind") == "interleave":
         fails, obs = oracle_interleave(inp["markers"])
         print("markers:", inp["markers"])
